@@ -1,13 +1,22 @@
 import ExponaxModel.Proofs.DFT
 import ExponaxModel.Proofs.SymbolAlgebra
 import ExponaxModel.Proofs.Symmetry
+import ExponaxModel.Proofs.SymmetryND
+import ExponaxModel.Proofs.SymmetryND2
 /-
 C08 — steppers commute with the symmetries of the periodic box.
 Translation (1-D, one channel, every `N ≥ 1`, every state): forward and inverse shift theorem, equivariance of every
 nonlinear term of the model, of each regenerated ETDRK stage formula, of `n` steps and of rollouts — closing with the
 physical-space statement for ETDRK4 + convection.  Axis permutation and embedding: at the level of the symbol for
 every D (list and `Equiv.Perm (Fin D)` forms) and of the stage formulas for arbitrary relabellings.
-Not proved: n-D roll of the transform (observed by the correspondence + oracle for D = 2, 3).
+n-D (`Proofs/SymmetryND*.lean`): forward and inverse shift theorem for every D and every per-axis shift vector, hence
+every linear stepper `irfftn(E ⊙ rfftn u)` commutes with n-D rolls for n steps and whole rollouts; reflection
+`x → −x` conjugates the spectrum of a real state, so even-order (real-symbol) steppers commute with it and a stepper with
+symbol `E` is mapped to the one with `conj E` (velocity `c → −c`); 2-D transposition with permuted anisotropic symbols.
+The property's own caveat ("odd-order linear terms need a Nyquist-free state on even grids for the axis permutation") is
+a THEOREM here: `C08_transpose_counterexample` (advection, N = 4) and the corrected statement with the Nyquist-sign
+hypothesis.  Not proved: nonlinear terms for D ≥ 2 and 3-D axis permutations at the transform level (correspondence +
+oracle).
 -/
 set_option linter.unusedVariables false
 namespace Exponax
@@ -104,6 +113,57 @@ theorem C08_symbol_embedding (c c₁ : Cfg ℂ) (hD₁ : c₁.D = 1) (hs : c₁.
     (hz : ∀ e < c.D, e ≠ d₀ → wnAt c e h = 0) (hk : wnAt c₁ 0 h₁ = wnAt c d₀ h) (a : List ℂ) :
     polySymbol c (generalLinear c.D a) h = polySymbol c₁ (generalLinear c₁.D (embedCoefs c.D a)) h₁ :=
   polySymbol_generalLinear_embed c c₁ hD₁ hs d₀ h h₁ hd₀ hz hk a
+
+/-! ### n-D translations, reflections, transposition (linear steppers, every D) -/
+open Exponax.SymmetryND in
+/-- n-D SHIFT THEOREM, forward and inverse, any D, any shift vector, any complex field / any stored spectrum -/
+theorem C08_shift_nd (D N : ℕ) (hN : 0 < N) (u c : Array ℂ) (s : List ℤ) :
+    rfftnM D N (rollND D N u s) = shiftSpecND D N s (rfftnM D N u) ∧
+      irfftnM D N (shiftSpecND D N s c) = rollND D N (irfftnM D N c) s :=
+  ⟨rfftn_rollND_array D N hN u s, irfftn_shiftSpecND D N hN c s⟩
+
+open Exponax.SymmetryND in
+/-- every linear stepper commutes with every n-D roll: one step, n steps, whole rollouts; arbitrary per-mode factors
+    (the regenerated `E0step`), arbitrary state (white noise included) -/
+theorem C08_linear_translation_nd (D N : ℕ) (hN : 0 < N) (E : ℕ → ℂ) (n : ℕ) (incl : Bool) (u : Array ℂ)
+    (s : List ℤ) :
+    (SymmetryND.linStep D N E)^[n] (rollND D N u s) = rollND D N ((SymmetryND.linStep D N E)^[n] u) s ∧
+    Loops.rollout (SymmetryND.linStep D N E) n incl (rollND D N u s)
+      = (Loops.rollout (SymmetryND.linStep D N E) n incl u).map (fun v => rollND D N v s) ∧
+    irfftnM D N (tab (Layout.numModes D N) ((E0step E)^[n] (specFun D N (rollND D N u s))))
+      = rollND D N (irfftnM D N (tab (Layout.numModes D N) ((E0step E)^[n] (specFun D N u)))) s :=
+  ⟨linStep_iterate_rollND D N hN E n u s, linStep_rollout_rollND D N hN E n incl u s, E0step_rollND D N hN E n u s⟩
+
+open Exponax.SymmetryND in
+/-- REFLECTION x → −x: conjugates the spectrum of a real state; a stepper with factors `E` becomes the stepper with
+    `conj E` (advection velocity c → −c; even-order operators commute) -/
+theorem C08_reflection (D N : ℕ) (hN : 0 < N) (E E' : ℕ → ℂ) (hE : ∀ h < Layout.numModes D N, E' h = (starRingEnd ℂ) (E h))
+    (n : ℕ) (u : Array ℂ) (hu : ∀ j < N ^ D, (u.getD j 0).im = 0) :
+    rfftnM D N (reflect D N u) = conjSpec D N (rfftnM D N u) ∧
+      (SymmetryND.linStep D N E')^[n] (reflect D N u) = reflect D N ((SymmetryND.linStep D N E)^[n] u) :=
+  ⟨rfftn_reflect_array D N hN u hu, linStep_iterate_reflect D N hN E E' hE n u hu⟩
+
+open Exponax.SymmetryND in
+/-- TRANSPOSITION (D = 2) with permuted anisotropic symbol `σ(k₀,k₁) ↦ σ(k₁,k₀)`: holds for real states whenever, on
+    even grids, the symbol does not see the sign of a Nyquist wavenumber (every even-order operator; every operator on
+    odd grids) … -/
+theorem C08_transposition_2d (N : ℕ) (hN : 0 < N) (σ : ℤ → ℤ → ℂ)
+    (hσ : ∀ k0 k1, σ (-k0) (-k1) = (starRingEnd ℂ) (σ k0 k1))
+    (h0 : N % 2 = 0 → ∀ k, σ (-((N / 2 : ℕ) : ℤ)) k = σ ((N / 2 : ℕ) : ℤ) k)
+    (h1 : N % 2 = 0 → ∀ k, σ k (-((N / 2 : ℕ) : ℤ)) = σ k ((N / 2 : ℕ) : ℤ))
+    (u : Array ℂ) (hu : ∀ j < N ^ 2, (u.getD j 0).im = 0) :
+    SymmetryND.linStep 2 N (symMul N fun k0 k1 => σ k1 k0) (transpose2 N u)
+      = transpose2 N (SymmetryND.linStep 2 N (symMul N σ) u) :=
+  linStep_transpose2_symbol N hN σ hσ h0 h1 u hu
+
+open Exponax.SymmetryND in
+/-- … and FAILS without that hypothesis: advection `σ = i(k₀+k₁)` on `N = 4` and a real state with Nyquist content —
+    exactly the exception the property states ("odd-order linear terms need a Nyquist-free state on even grids") -/
+theorem C08_transpose_counterexample :
+    ∃ (σ : ℤ → ℤ → ℂ) (u : Array ℂ), (∀ k0 k1, σ k1 k0 = σ k0 k1) ∧
+      (∀ k0 k1, σ (-k0) (-k1) = (starRingEnd ℂ) (σ k0 k1)) ∧ (u.size = 4 ^ 2 ∧ ∀ j < 4 ^ 2, (u.getD j 0).im = 0) ∧
+      SymmetryND.linStep 2 4 (symMul 4 σ) (transpose2 4 u) ≠ transpose2 4 (SymmetryND.linStep 2 4 (symMul 4 σ) u) :=
+  transpose2_counterexample
 
 example : (0 : ℕ) < 8 := by decide
 
